@@ -95,7 +95,7 @@ PATHS = [
 
 
 def gen_response(rng, cls, tok):
-    st5 = rng.choice([500, 500, 502, 503, 504])
+    st5 = rng.choice([500, 500, 502, 503, 503, 504])
     if cls == 'ok':
         return {'cls': cls, 'status': 200, 'ctype': 'application/json', 'body': json.dumps({'tok': tok})}
     if cls == 't_json':
@@ -166,7 +166,13 @@ def gen(seed, tier):
                 cls = rng.choice(nontrans)
             else:
                 cls = rng.choice(enabled)
-            script.append(gen_response(rng, cls, tok))
+            resp = gen_response(rng, cls, tok)
+            if resp.get('status', 0) >= 500 and rng.random() < 0.25:
+                # a node (or a proxy in front of it) may attach a Retry-After hint: the statement's delay bounds still hold
+                resp['headers'] = {'retry-after': rng.choice(['0', '1', '1', '3', '120', 'Wed, 21 Oct 2026 07:28:00 GMT'])}
+            if rng.random() < 0.2:
+                resp['latency_ms'] = rng.choice([5, 400, 4000, 25000])  # a slow answer: virtual time passes while waiting for it
+            script.append(resp)
         step = {'via': via, 'path': path, 'params': params, 'script': script}
         if via == 'node.post':
             step['json'] = rng.choice([None, 'deadbeef', {'a': [1, 2]}])
@@ -216,9 +222,11 @@ def execute(scn, want_log=False):
         else:
             resp = script[pos]
         cursor['pos'] = pos + 1
+        if resp.get('latency_ms'):
+            sim.advance(resp['latency_ms'])
         if resp.get('exc'):
             return core.Reply.error(resp['exc'], 'scripted')
-        return core.Reply(resp['status'], resp['body'].encode(), resp['ctype'])
+        return core.Reply(resp['status'], resp['body'].encode(), resp['ctype'], headers=resp.get('headers'))
 
     tr = core.Transport(sim, handler)
     uri = 'http://node0.sim:8732'
@@ -335,8 +343,17 @@ def execute(scn, want_log=False):
                 continue
             # delays: virtual time between consecutive attempts; transport latency is 0 here so
             # the clock can only have moved through sleep()
-            times = [r['t'] for r in reqs]
-            delays = [b - a for a, b in zip(times, times[1:])]
+            # delay before attempt k+1 = what the client slept between receiving answer k and sending attempt k+1
+            # (answers may be slow: the time spent waiting for an answer is not a delay of the client)
+            delays = []
+            acc = None
+            for e in evs:
+                if e['k'] == 'req':
+                    if acc is not None:
+                        delays.append(acc)
+                    acc = 0
+                elif e['k'] == 'sleep' and acc is not None:
+                    acc += e['ms']
             if any(d > MAX_DELAY_MS for d in delays):
                 violate('delay', 'delay-above-cap', step=si, delays_ms=delays)
                 continue
